@@ -131,8 +131,39 @@ def check_insert_function(ctx, g):
                 ctx.violation("C06:old-function-changed", "%s of a function that was not touched changed" % name, payload)
 
 
+def entry_at_the_end(rng):
+    """a function whose entry block is laid out last, at the very end of .text, and is deleted as a whole: nothing may
+    be promoted to entry (there is no next block)"""
+    import emodify
+
+    for _ in range(20):
+        case = emodify.gen_case(rng, nblocks=rng.randint(2, 5), with_data=False)
+        text = case["text"]
+        last, prev = text[-1], text[-2]
+        if last["kind"] == "code" and prev["kind"] == "code" and last.get("func") is not None and last.get("func") == prev.get("func"):
+            for d in text:
+                if d.get("func") == last["func"]:
+                    d.pop("entry", None)
+            last["entry"] = True
+            i = len(text) - 1
+            case["edits"] = [e for e in case["edits"] if e["block"] != i and e.get("all") is None]
+            e = {"op": "delete", "block": i, "off": 0, "len": emodify.block_size(last)}
+            if rng.random() < 0.25:
+                e["proxy"] = True
+            case["edits"].append(e)
+            return case
+    return None
+
+
 def run(ctx):
     LE.run(ctx, "C06", 1500, 40000)
+    camp = LE.Campaign(ctx, "C06")
+    for _ in range(ctx.budget(80, 2000)):
+        case = entry_at_the_end(ctx.rng)
+        if case is not None:
+            ctx.count("entry-at-the-end")
+            camp.add(case)
+    camp.flush()
     for _ in range(ctx.budget(150, 4000)):
         check_insert_function(ctx, gen_insert_function(ctx.rng))
 
